@@ -1,6 +1,6 @@
 #!/usr/bin/env bash
 # Runs every registered quick check once against /repo and reports exit codes (refreshes evidence/*.json).
-cd /verif
+cd "$(dirname "${BASH_SOURCE[0]}")/.."
 for p in C01 C02 C03 C04 C05 C06 C07 C08 C09 C10 C11 C12 C13 C14 C15 C16 C17 C18 C19 C20; do
   s=$(date +%s); VERIF_SEED=${VERIF_SEED:-0} ./check $p --tier quick > /tmp/q-$p.out 2>&1; rc=$?; e=$(date +%s)
   echo "$p exit=$rc $((e-s))s $(grep -E "^$p tier" /tmp/q-$p.out | cut -c1-120)"
